@@ -157,7 +157,7 @@ DecJson(w) ==
    FeeFields::is_zero.  fixes/C08-1.patch changes the test to !fee.is_zero():
    when that patch is in /repo set BinFeeTestMasked to FALSE (until then Layer M
    reports the difference as NONCONFORMANCE on fee = 2^40, nothing else changes). *)
-BinFeeTestMasked == TRUE
+BinFeeTestMasked == FALSE
 BinFeePresent(t) == IF BinFeeTestMasked THEN ~FeeLowZero(t) ELSE ~IsZero(t)
 BinStatus(v) ==
      (IF v.np # 2 THEN {"np"} ELSE {})
@@ -193,7 +193,7 @@ BinLen(v) ==
    participant count is truncated to one byte and all entries are written.
    fixes/C08-2.patch makes the writer refuse (Err) more entries than the count can
    carry: when that patch is in /repo set BinCountChecked to TRUE. *)
-BinCountChecked == FALSE
+BinCountChecked == TRUE
 CountU8(n) == n % 256
 \* a slate the binary form can carry at all: the participant list fits its count, and a height-locked
 \* kernel has its height (the format has no way to say "feat = 2 without feat_args")
